@@ -9,7 +9,7 @@ use tree_sitter_highlight::{Highlight, HighlightConfiguration, HighlightEvent, H
 pub fn meta(tier: &str) -> CheckMeta {
     CheckMeta {
         id: "C17", level: "model_checking",
-        rule: "E-box: configurations {stmts with highlights + locals; tmpl with an arith injection in three variants (plain, include-children, combined); three layers tmpl -> combined text chunks as arith -> each parenthesised group as stmts (a node of the middle layer spans a directive)} x recognised-name lists {full, without definitions, keywords only} x sources {seeds, all strings of <=k lexemes, all strings of <=4 adversarial byte atoms incl. CR, CRLF, NUL, invalid UTF-8}; ONE Highlighter reused across all sources of a run. Oracle on the event stream: Source spans contiguous, increasing, covering [0,len) exactly once; start/end events never unbalanced and all closed at the end; every span emitted while a highlight of the injected language is open lies inside an injection content node (computed by our own evaluation on the parent tree); a reference that our own scope walk resolves to an earlier definition carries the definition's highlight. HtmlRenderer: tags stripped and the five entities decoded, the output equals the source after the documented normalisations (CR dropped, invalid UTF-8 replaced, final newline added). Non-trivial = sources with at least one highlight span.",
+        rule: "E-box: configurations {stmts with highlights + locals; tmpl with an arith injection in three variants (plain, include-children, combined); three layers tmpl -> combined text chunks as arith -> each parenthesised group as stmts (a node of the middle layer spans a directive)} x recognised-name lists {full, without definitions, keywords only} x sources {seeds, all strings of <=k lexemes, all strings of <=4 adversarial byte atoms incl. CR, CRLF, NUL, invalid UTF-8}; ONE Highlighter reused across all sources of a run. Oracle on the event stream: Source spans contiguous, increasing, covering [0,len) exactly once; start/end events never unbalanced and all closed at the end; every span emitted while a highlight of the injected language is open lies inside an injection content node (computed by our own evaluation on the parent tree); a reference that our own scope walk resolves to an earlier definition carries the definition's highlight. HtmlRenderer: tags stripped and the five entities decoded, the output equals the source after the documented normalisations (CR dropped, invalid UTF-8 replaced, final newline added). For stmts two more name lists leave out one kind of definition: a reference resolved to a definition without highlight keeps its own highlight. Non-trivial = sources with at least one highlight span.",
         assumptions: vec!["runs of U+FFFD are compared collapsed (how many replacement characters an invalid run yields is not documented)".into()],
         exhaustive: true,
         bounds: json!({"tier": tier, "lexeme_strings_k": if tier == "quick" { 3 } else { 4 }, "nested_piece_strings": if tier == "quick" { 4 } else { 5 }, "byte_atoms": 4}),
